@@ -108,6 +108,20 @@ Sized ::= OCTET STRING (SIZE(1..maxint))
 
 Ch ::= CHOICE { a [0] Str, b [1] EXPLICIT Sized, c [2] NULL }
 
+K1 ::= IA5String (SIZE(1..8) ^ FROM("a".."f" | "0".."9"))
+
+K2 ::= INTEGER ((0..100) EXCEPT (40..60))
+
+K3 ::= INTEGER (ALL EXCEPT 5)
+
+K4 ::= INTEGER (1..10 | 20..30, ..., 40)
+
+K5 ::= IA5String (FROM("a".."p" | "0".."9"))
+
+K6 ::= VisibleString (SIZE(2..4)) (FROM("@" | "0".."9"))
+
+K7 ::= SEQUENCE (SIZE(1..3, ...)) OF INTEGER (0..7)
+
 END
 """
 
@@ -185,6 +199,24 @@ END
 """)]
 
 
+# COMPONENTS OF between two AUTOMATIC TAGS modules (file-order independent in the unchanged tree)
+FIXED_COMPOF2 = [("da.asn1", """DA DEFINITIONS AUTOMATIC TAGS ::= BEGIN
+EXPORTS ALL;
+
+Base ::= SEQUENCE { x INTEGER, y BOOLEAN OPTIONAL }
+
+END
+"""), ("db.asn1", """DB DEFINITIONS AUTOMATIC TAGS ::= BEGIN
+IMPORTS Base FROM DA;
+
+Msg ::= SEQUENCE { hdr INTEGER, COMPONENTS OF Base, body OCTET STRING }
+
+Two ::= SEQUENCE { COMPONENTS OF Base, z IA5String }
+
+END
+""")]
+
+
 def run(tier, seed):
     chk = core.Check("C12", tier, seed)
     quick = tier == "quick"
@@ -218,6 +250,7 @@ def run(tier, seed):
     sets.append(("gen-directives-0", [("dr.asn1", FIXED_DIRECTIVES)], True, ("-pdu=TelemetryPacketRecord",)))
     sets.append(("gen-param-0", FIXED_PARAM, False))
     sets.append(("gen-compof-0", FIXED_COMPOF, False))
+    sets.append(("gen-compofauto-0", FIXED_COMPOF2, False))
     for i in range(2 if quick else 10):
         sets.append(("gen-clash-%d" % i, gen_clash_set(seed * 100 + 70 + i, rng.choice([2, 2, 3])), True, ("-fcompound-names",)))
     shipped = sorted(glob.glob(os.path.join(tc.repo, "tests/tests-asn1c-compiler/*-OK.asn1")))
